@@ -20,3 +20,23 @@ run C15 C15 C03
 run C17 C17 C02 C11 C08
 run C18 C18 C01
 run C20 C20 C14 C03
+run2() { id=$1; shift; prop=$1; shift; ONLY_MORE=1 .venv/bin/python tools/eval_seed.py seeded/seed2-$id seed2-$id $prop "$@"; }
+run2 C01 C01 C09 C18
+run2 C02 C02 C17 C05
+run2 C03 C03 C04
+run2 C04 C04 C03
+run2 C05 C05 C01 C11
+run2 C06 C06 C16
+run2 C07 C07 C06
+run2 C08 C08 C01 C10 C18
+run2 C09 C09 C01
+run2 C10 C10 C18 C08
+run2 C11 C11 C02 C05
+run2 C12 C12 C01 C13
+run2 C13 C13 C16 C05
+run2 C14 C14 C20 C03
+run2 C15 C15 C09
+run2 C16 C16 C13
+run2 C17 C17 C02
+run2 C18 C18 C10 C08
+run2 C20 C20 C14
